@@ -150,7 +150,7 @@ func (dist *ParetoDistribution) SetParameters(parameters Vector) error {
 
 func (dist *ParetoDistribution) ImportConfig(config ConfigDistribution, t ScalarType) error {
 
-  if parameters, ok := config.GetParametersAsFloats(); !ok {
+  if parameters, ok := config.GetParametersAsFloats(); !ok || len(parameters) < 2 {
     return fmt.Errorf("invalid config file")
   } else {
     lambda  := NewScalar(t, parameters[0])
